@@ -7,7 +7,7 @@
    argv[1] = "broken" : use the deliberately broken [unwind_broken]. *)
 open C12_model
 
-let inf_steps = 60000
+let inf_steps = 5000
 let spec_fuel = 1500
 
 type sx = Atom of string | List of sx list
